@@ -281,6 +281,25 @@ func vC05Respond(req *dns.Msg, epoch int) *dns.Msg {
 			next = "pos0"
 		}
 		resp.Answer = []dns.RR{vC05CNAME(q.Name, next+"."+vC05Zone, ttl)}
+	case "cx": // alias onto a hop whose own answer carries a self-alias next to the terminal record
+		if q.Qtype == dns.TypeA || q.Qtype == dns.TypeAAAA || q.Qtype == dns.TypeCNAME {
+			resp.Answer = []dns.RR{vC05CNAME(q.Name, "cy"+first[2:]+"."+vC05Zone, ttl)}
+		} else {
+			nodata()
+		}
+	case "cy": // "n CNAME n" + "n A": nothing an upstream may legitimately send; the cache admits what it is given
+		if q.Qtype == dns.TypeA {
+			resp.Answer = []dns.RR{vC05CNAME(q.Name, q.Name, ttl), vC05A(q.Name, ttl, idx)}
+		} else {
+			nodata()
+		}
+	case "cz": // an alias onto the SAME name in another spelling next to the terminal record: admitted (the
+		// admission-time scan compares spellings exactly), a self-alias for a client that uses that spelling
+		if q.Qtype == dns.TypeA {
+			resp.Answer = []dns.RR{vC05CNAME(q.Name, strings.ToUpper(q.Name), ttl), vC05A(q.Name, ttl, idx)}
+		} else {
+			nodata()
+		}
 	case "cf": // full chain in one response
 		if q.Qtype == dns.TypeA {
 			resp.Answer = []dns.RR{vC05CNAME(q.Name, "cfm."+vC05Zone, ttl), vC05CNAME("cfm."+vC05Zone, "cft."+vC05Zone, ttl), vC05A("cft."+vC05Zone, ttl, 77)}
@@ -1409,6 +1428,35 @@ func vC05HopRefreshOnly(tg vC05Toggles, st vC05Step, ob vC05StepObs) bool {
 	return len(wl) == 0 && extra > 0
 }
 
+// vC05AliasCaseLoop CLASSIFIES a difference as the known finding alias-target-case (never accepts one):
+// the byte path served a stored answer (NOERROR) that holds an alias record whose target is, letter for
+// letter, the name as THIS client spelled it, the decoded path answered SERVFAIL with empty sections for
+// the same packet (additionalAnswer's exact-spelling self-alias test), nothing else in the headers differs
+// and the resolver saw the same on both sides.
+func vC05AliasCaseLoop(ob vC05StepObs) bool {
+	if ob.w[0] != "reply" || ob.m[0] != "reply" || ob.wLog != ob.mLog || ob.w[2] != ob.m[2] {
+		return false
+	}
+	if strings.Replace(ob.w[1], "rcode=0", "rcode=2", 1) != ob.m[1] || !strings.HasSuffix(ob.w[1], "rcode=0") || ob.m[3] != "" || ob.m[4] != "" {
+		return false
+	}
+	qn := strings.SplitN(ob.w[2], "/", 2)[0]
+	for _, l := range strings.Split(ob.w[3], "\n") {
+		f := strings.Split(l, "|")
+		if len(f) != 5 || f[1] != "5" {
+			continue
+		}
+		raw, err := hex.DecodeString(f[4])
+		if err != nil {
+			continue
+		}
+		if name, _, err := dns.UnpackDomainName(raw, 0); err == nil && name == qn {
+			return true
+		}
+	}
+	return false
+}
+
 func vC05Differs(obs []vC05StepObs) (int, bool) {
 	for i, ob := range obs {
 		if vC05CaseOnly(ob.w, ob.m) && ob.wLog == ob.mLog {
@@ -1705,6 +1753,23 @@ func TestVerifC05Differential(t *testing.T) {
 		add2(vC05Toggles{inline: inline}, pk("sf0", 1, 0x0100, false, true, 1232), pk("sig0", 1, 0x0100, true, true, 1232), pk("sig0", 1, 0x0120, true, true, 1232),
 			pk("sf0", 1, 0x0100, false, true, 1232), pk("sig0", 1, 0x0100, true, true, 1232), pk("nx1", 1, 0x0100, true, true, 1232), pk("a.nx1", 1, 0x0100, false, true, 1232), pk("sig0", 1, 0x0120, true, true, 1232), pk("big0", 16, 0x0100, false, true, 512), pk("sf0", 1, 0x0100, false, false, 0))
 	}
+	// model witness Proofs_chase.ex_chase_back_alias_differs on the real code: a hop whose cached answer is
+	// "n CNAME n" + "n A" - asked directly (flat byte hit vs the decoded scan) and behind an alias (composer vs
+	// nested chase), single pass and inline+replay
+	for _, inline := range []bool{false, true} {
+		add2(vC05Toggles{inline: inline}, pk("cy0", 1, 0x0100, false, true, 1232), pk("cy0", 1, 0x0100, false, true, 1232), pk("cx0", 1, 0x0100, false, true, 1232),
+			pk("cx0", 1, 0x0100, false, true, 1232), pk("cx0", 1, 0x0100, false, true, 1232), pk("cy0", 1, 0x0100, false, false, 0))
+		add2(vC05Toggles{inline: inline}, pk("cx1", 1, 0x0100, false, true, 1232), pk("cx1", 1, 0x0100, false, true, 1232), pk("cx1", 1, 0x0100, false, true, 1232), pk("cy1", 1, 0x0100, false, true, 1232))
+	}
+	// ... and the reachable variant: the alias target is the owner in another letter case, the first client
+	// spells the name in lower case (admitted), the next one in upper case (exact spellings, no 0x20 mixing)
+	pkx := func(name string) vC05Step {
+		q := &vC05Query{id: 2500 + g.r.Intn(400), name: name, qtype: 1, qclass: 1, flags: 0x0100, opt: true, size: 1232}
+		return vC05Step{raw: q.pack(nil), tag: "scripted exact-spelling " + name + "/1", ip: net.IPv4(203, 0, 113, 42)}
+	}
+	for _, inline := range []bool{false, true} {
+		add2(vC05Toggles{inline: inline}, pkx("cz0.zero.test."), pkx("cz0.zero.test."), pkx("CZ0.ZERO.TEST."), pkx("cz0.zero.test."), pkx("CZ0.ZERO.TEST."))
+	}
 	// client subnet forwarding: enabled for everybody / for an allow-list, clients reported in 16-byte
 	// (IPv4-mapped) and 4-byte form and IPv6, inside and outside the list; misses, hits, other subnets,
 	// the same names without the option
@@ -1902,6 +1967,12 @@ func TestVerifC05Differential(t *testing.T) {
 					break
 				}
 			}
+			aliasCase := false
+			if goFail != "" && vC05AliasCaseLoop(ob) {
+				// known finding: the decoded path's self-alias test compares spellings exactly
+				aliasCase = true
+				goFail = "an alias onto its own owner in the client's letter case is a SERVFAIL on the decoded path only: " + goFail
+			}
 			if goFail != "" && vC05CaseOnly(ob.w, ob.m) && ob.wLog == ob.mLog {
 				// known finding: names inside RDATA take the letter case of the client's question
 				fkey = "rdata-name-case"
@@ -1932,6 +2003,9 @@ func TestVerifC05Differential(t *testing.T) {
 			}
 			if hopRegress {
 				kind = "diff/chase-hop-prefetch-regression"
+			}
+			if aliasCase {
+				kind = "diff/alias-target-case"
 			}
 			var hist []string
 			if goFail != "" {
@@ -1967,6 +2041,10 @@ func TestVerifC05Differential(t *testing.T) {
 			if fkey != "" {
 				// reported once through emitKnown; keep this step out of the plain comparison
 				rec["inconclusive"] = true
+			}
+			if aliasCase && !unsettled && os.Getenv("VERIF_C05_STRICT") == "" {
+				// VERIF_C05_STRICT=1 reports the class as a plain failure (fix candidate props/C05/fix2.patch)
+				rec["fkey"] = "alias-target-case"
 			}
 			emit(rec)
 		}
